@@ -225,6 +225,7 @@ func readRaceLog() []raceReport {
 
 func c15DocJSON(doc map[string]any) []byte {
 	paths := map[string]any{}
+	var c15SharedResp map[string]any
 	for _, o := range jlist(doc["ops"]) {
 		op := o.(map[string]any)
 		item, _ := paths[jstr(op, "path")].(map[string]any)
@@ -240,10 +241,32 @@ func c15DocJSON(doc map[string]any) []byte {
 			oper["requestBody"] = map[string]any{"content": map[string]any{jstr(b, "mt"): map[string]any{"schema": b["schema"]}}}
 		}
 		resp := map[string]any{"description": "ok"}
+		sharedResp := false
 		if r, ok := op["resp"].(map[string]any); ok {
 			resp["content"] = map[string]any{"application/json": map[string]any{"schema": r["schema"]}}
+			// declared response headers (a declared "Content-Type" is legal and must be ignored by validation)
+			if hs, ok := r["headers"].(map[string]any); ok && len(hs) > 0 {
+				hm := map[string]any{}
+				for name, h := range hs {
+					hd := map[string]any{"schema": h.(map[string]any)["schema"]}
+					if jbool(h.(map[string]any), "required") {
+						hd["required"] = true
+					}
+					hm[name] = hd
+				}
+				resp["headers"] = hm
+			}
+			sharedResp = jbool(r, "shared")
 		}
-		oper["responses"] = map[string]any{"200": resp}
+		if sharedResp {
+			// one component response referenced by every operation that asks for it (the first one defines it)
+			if c15SharedResp == nil {
+				c15SharedResp = resp
+			}
+			oper["responses"] = map[string]any{"200": map[string]any{"$ref": "#/components/responses/Shared"}}
+		} else {
+			oper["responses"] = map[string]any{"200": resp}
+		}
 		if jbool(op, "secure") {
 			oper["security"] = []any{map[string]any{"k": []any{}}}
 		}
@@ -276,6 +299,9 @@ func c15DocJSON(doc map[string]any) []byte {
 		if jbool(o.(map[string]any), "secure") {
 			comps["securitySchemes"] = map[string]any{"k": map[string]any{"type": "apiKey", "in": "header", "name": "X-Key"}}
 		}
+	}
+	if c15SharedResp != nil {
+		comps["responses"] = map[string]any{"Shared": c15SharedResp}
 	}
 	if len(comps) > 0 {
 		d["components"] = comps
@@ -676,6 +702,11 @@ func c15Exec(w *c15World, docSpec, call map[string]any) (res string) {
 			Header:                 http.Header{"Content-Type": []string{"application/json"}},
 			Options: &openapi3filter.Options{IncludeResponseStatus: true, MultiError: jbool(call, "multi"),
 				ExcludeResponseBody: jbool(call, "exBody"), ExcludeWriteOnlyValidations: jbool(call, "exRO")},
+		}
+		if hm, ok := call["rhdr"].(map[string]any); ok {
+			for k, v := range hm {
+				rin.Header.Set(k, fmt.Sprint(v))
+			}
 		}
 		rin.SetBodyBytes([]byte(jstr(call, "body")))
 		return errText(openapi3filter.ValidateResponse(ctx, rin))
@@ -1205,6 +1236,12 @@ func (g *c15Gen) object(depth int) map[string]any {
 	if g.r.Chance(15) {
 		s["additionalProperties"] = false
 	}
+	if g.sharedDefaults && g.r.Chance(10) {
+		// an array default whose elements are objects that receive nested defaults from the item schema
+		props["l"] = map[string]any{"type": "array", "default": []any{map[string]any{"s": "ab"}},
+			"items": map[string]any{"type": "object", "properties": map[string]any{"s": map[string]any{"type": "string"},
+				"n": map[string]any{"type": "integer", "default": 1 + g.r.Intn(5)}}}}
+	}
 	if g.sharedDefaults && g.r.Chance(12) {
 		// the shape of finding F-C15-1: an object-valued default that itself receives a nested default
 		props["o"] = map[string]any{"type": "object", "default": map[string]any{},
@@ -1441,6 +1478,13 @@ func (g *c15Gen) doc(nops int) map[string]any {
 		}
 		if g.r.Chance(70) {
 			op["resp"] = map[string]any{"schema": jsonSchema()}
+			if g.lists && g.r.Chance(35) {
+				// declared response headers, among them a definition named Content-Type (to be ignored)
+				op["resp"].(map[string]any)["headers"] = map[string]any{
+					"X-Rate":       map[string]any{"schema": map[string]any{"type": "integer"}, "required": g.r.Bool()},
+					"Content-Type": map[string]any{"schema": map[string]any{"type": "string"}},
+				}
+			}
 		}
 		if g.r.Chance(25) {
 			op["secure"] = true // security requirement: the per-call AuthenticationFunc decides
@@ -1611,6 +1655,9 @@ func (g *c15Gen) call(kind string, doc map[string]any) map[string]any {
 		c["body"] = "{}"
 		if r, ok := op["resp"].(map[string]any); ok {
 			c["body"] = jsonText(g.value(r["schema"].(map[string]any), 0))
+			if _, ok := r["headers"]; ok && g.r.Chance(70) {
+				c["rhdr"] = map[string]any{"X-Rate": hx.Pick(g.r, []string{"5", "abc", "12"})}
+			}
 		}
 	case "visit":
 		name := hx.Pick(g.r, c15_sortedKeys(doc["schemas"].(map[string]any)))
@@ -1773,6 +1820,67 @@ func c15PathItemCase(nItem, variant, n int) hx.Case {
 	return hx.Case{"doc": doc, "calls": calls, "g": 8, "per": 4, "rounds": 2, "cold": false, "sched": 700 + n}
 }
 
+// c15RespHeaderCase: responses that DECLARE headers — a required integer header, a pattern-constrained one and a
+// definition named "Content-Type" (legal; to be ignored) — inline per operation or as ONE component response that two
+// operations reference; responses with / without / with ill-typed header values validated through both routers.
+func c15RespHeaderCase(variant int, cold bool, n int) hx.Case {
+	tag := fmt.Sprintf("rh%d", n)
+	hdrs := func() map[string]any {
+		return map[string]any{
+			"X-Rate":       map[string]any{"schema": map[string]any{"type": "integer", "minimum": 1}, "required": true},
+			"X-Tag":        map[string]any{"schema": map[string]any{"type": "string", "pattern": "^[ab]+(" + tag + ")?$"}},
+			"Content-Type": map[string]any{"schema": map[string]any{"type": "string", "enum": []any{"text/never"}}},
+		}
+	}
+	body := map[string]any{"type": "object", "properties": map[string]any{"name": map[string]any{"type": "string"}}}
+	resp := func() map[string]any {
+		return map[string]any{"schema": body, "headers": hdrs(), "shared": variant%2 == 1}
+	}
+	doc := map[string]any{"ops": []any{
+		map[string]any{"path": "/rh", "method": "get", "params": []any{}, "resp": resp()},
+		map[string]any{"path": "/rh", "method": "put", "params": []any{}, "resp": resp()},
+		map[string]any{"path": "/rh2", "method": "get", "params": []any{}, "resp": resp()},
+	}, "schemas": map[string]any{}}
+	calls := []any{
+		map[string]any{"k": "vresp", "op": 0, "router": "g", "multi": false, "body": `{"name":"ab"}`, "rhdr": map[string]any{"X-Rate": "5", "X-Tag": "ab"}},
+		map[string]any{"k": "vresp", "op": 1, "router": "l", "multi": true, "body": `{"name":"ab"}`, "rhdr": map[string]any{"X-Rate": "abc"}},
+		map[string]any{"k": "vresp", "op": 2, "router": "g", "multi": true, "body": `{"name":1}`, "rhdr": map[string]any{"X-Tag": "zz"}},
+		map[string]any{"k": "vresp", "op": 0, "router": "l", "multi": false, "body": `{}`, "rhdr": map[string]any{"X-Rate": "0", "X-Tag": "ba"}},
+	}
+	return hx.Case{"doc": doc, "calls": calls, "g": 8, "per": 3, "rounds": 2, "cold": cold, "sched": 1300 + n}
+}
+
+// c15ArrayDefaultCase: a property whose default is an ARRAY of objects (or an array of arrays of objects) and whose item
+// schema declares defaults for properties the default's elements leave out; requests that omit the property, with
+// defaults enabled, through ValidateRequest and VisitJSON — the elements of the injected default must not be the
+// document's own maps.
+func c15ArrayDefaultCase(variant int, cold bool, n int) hx.Case {
+	elem := map[string]any{"type": "object", "properties": map[string]any{
+		"label":  map[string]any{"type": "string"},
+		"weight": map[string]any{"type": "integer", "default": 1 + variant},
+	}}
+	var tags map[string]any
+	if variant%2 == 0 {
+		tags = map[string]any{"type": "array", "items": elem, "default": []any{map[string]any{"label": "general"}, map[string]any{"label": "x", "weight": 9}}}
+	} else {
+		tags = map[string]any{"type": "array", "items": map[string]any{"type": "array", "items": elem},
+			"default": []any{[]any{map[string]any{"label": "general"}}, []any{}}}
+	}
+	s := map[string]any{"type": "object", "properties": map[string]any{"name": map[string]any{"type": "string", "minLength": 2}, "tags": tags}}
+	doc := map[string]any{"ops": []any{
+		map[string]any{"path": "/ad", "method": "post", "params": []any{}, "body": map[string]any{"mt": "application/json", "schema": map[string]any{"$ref": "#/components/schemas/AD"}}},
+		map[string]any{"path": "/ad2", "method": "put", "params": []any{}, "body": map[string]any{"mt": "application/json", "schema": s}},
+	}, "schemas": map[string]any{"AD": s}}
+	calls := []any{
+		map[string]any{"k": "vreq", "op": 0, "router": "g", "ct": "application/json", "body": `{"name":"ab"}`, "skipDefaults": false, "multi": false},
+		map[string]any{"k": "vreq", "op": 1, "router": "l", "ct": "application/json", "body": `{"name":"a"}`, "skipDefaults": false, "multi": true},
+		map[string]any{"k": "visit", "schema": "AD", "value": `{"name":"zz"}`, "opts": []any{"asreq", "defaults"}},
+		map[string]any{"k": "vreq", "op": 0, "router": "l", "ct": "application/json", "body": `{"name":"ab","tags":[]}`, "skipDefaults": false, "multi": false},
+		map[string]any{"k": "vreq", "op": 1, "router": "g", "ct": "application/json", "body": `{"name":"ab"}`, "skipDefaults": true, "multi": false},
+	}
+	return hx.Case{"doc": doc, "calls": calls, "g": 8, "per": 3, "rounds": 2, "cold": cold, "sched": 1400 + n}
+}
+
 // c15SchemaListCase: lists inside schemas that are decoded with spare capacity, and values that take the error paths
 // which print / walk those lists
 func c15SchemaListCase(v int, cold bool, n int) hx.Case {
@@ -1895,6 +2003,15 @@ func genC15(ctx *hx.Ctx, emit func(hx.Case)) {
 			emit(c15SchemaListCase(v, cold, n))
 		}
 	}
+	// declared response headers (inline / one shared component response) and array-of-objects defaults
+	for v := 0; v < 2; v++ {
+		for _, cold := range []bool{true, false} {
+			n++
+			emit(c15RespHeaderCase(v, cold, n))
+			n++
+			emit(c15ArrayDefaultCase(v, cold, n))
+		}
+	}
 	// re-validation of the shared document next to each kind of concurrent call (out of the property's list of calls, but
 	// table ConstructionWrites says it only reads a validated document: checked here under -race)
 	for i, k := range c15Kinds {
@@ -1949,6 +2066,10 @@ func genC15(ctx *hx.Ctx, emit func(hx.Case)) {
 		}
 		for v := 0; v < 3; v++ {
 			c15Seq(c15SchemaListCase(v, false, n), v == 0)
+		}
+		for v := 0; v < 2; v++ {
+			c15Seq(c15RespHeaderCase(v, false, n), false)
+			c15Seq(c15ArrayDefaultCase(v, false, n), false)
 		}
 		for t := 0; t < 2; t++ { // first and repeated generation for recursive types, with and without options
 			var gc []any
